@@ -86,6 +86,9 @@ add('actc_max_per_child', 'Rev. Proc. 2021-45 sec. 3.05 ($1,500 for 2022) / 2022
 add('ctc_2021_enhanced_phaseout_start', 'ARPA sec. 9611 / IRC sec. 24(i)(4): $150,000 joint or surviving spouse, $112,500 head of household, $75,000 other; 2021 Schedule 8812 Line 5 Worksheet line 8',
     {'kind': 'echo', 'line': '1040_s8812.5_ws_8', 'reads': {}},
     {'2021': by_status(75000, 150000, 75000, 112500, 150000)})
+add('ctc_2021_enhanced_credit_floor', '2021 Schedule 8812 Line 5 Worksheet line 6: $12,500 joint, $2,500 qualifying widow(er), $4,375 head of household, $6,250 other (IRC sec. 24(i)(4)(C))',
+    {'kind': 'echo', 'line': '1040_s8812.5_ws_6', 'reads': {}},
+    {'2021': by_status(6250, 12500, 6250, 4375, 2500)})
 add('ctc_2021_amounts', 'ARPA sec. 9611: $3,600 under 6, $3,000 age 6-17; Line 5 Worksheet lines 1 and 2',
     {'kind': 'echo', 'line': '1040_s8812.5_ws_1', 'reads': {'v:1040_s8812.4b': 1}},
     {'2021': by_status(3600, 3600, 3600, 3600, 3600)})
@@ -185,6 +188,33 @@ for band in range(7):
     add(f'nc_child_deduction_band_{band}', 'N.C. Gen. Stat. sec. 105-153.5(a1) child deduction table (2021: $2,500 top amount, bands of $20,000 joint / $15,000 head of household / $10,000 other starting at 40,000 / 30,000 / 20,000; 2022+: $3,000 top amount, S.L. 2021-180); Form D-400 line 10b worksheet',
         {'kind': 'echo_at', 'line': 'nc_d-400_child_deduction_wkst.4', 'driver': 'v:nc_d-400_child_deduction_wkst.2', 'band': band, 'band_width': NC_BANDS, 'reads': {}},
         vals)
+
+# 13. further amounts ---------------------------------------------------------------------------------
+add('nc_sa_mortgage_and_property_tax_cap', 'N.C. Gen. Stat. sec. 105-153.5(a)(2)b: qualified residence interest plus real estate property taxes capped at $20,000; D-400 Schedule A line 4',
+    {'kind': 'echo', 'line': 'nc_d-400_sa.4', 'reads': {}},
+    {y: by_status(20000, 20000, 20000, 20000, 20000) for y in ('2021', '2022', '2023')})
+add('nc_sa_real_estate_tax_cap', 'D-400 Schedule A line 2 instructions: real estate taxes as limited by the federal $10,000 ($5,000 married filing separately) cap',
+    {'kind': 'echo', 'line': 'nc_d-400_sa.2', 'reads': {'i:1040_sa.state_local_real_estate_taxes': 1000000.0}},
+    {y: by_status(10000, 10000, 5000, 10000, 10000) for y in ('2021', '2022', '2023')})
+add('ctc_2021_repayment_protection_threshold', '2021 Schedule 8812 line 33: $60,000 joint or qualifying widow(er), $50,000 head of household, $40,000 other (IRC sec. 24(j)(2)(B))',
+    {'kind': 'echo', 'line': '1040_s8812.33', 'reads': {}},
+    {'2021': by_status(40000, 60000, 40000, 50000, 60000)},
+    printed={'form': '1040_s8812', 'line': '33', 'patterns': {'MarriedFilingJointly': r'Married filing jointly or Qualifying widow\(er\)-\$([\d,]+)', 'QSS': r'Married filing jointly or Qualifying widow\(er\)-\$([\d,]+)',
+                                                               'HeadOfHousehold': r'Head of household-\$([\d,]+)', 'Single': r'All other filing statuses-\$([\d,]+)',
+                                                               'MarriedFilingSeparately': r'All other filing statuses-\$([\d,]+)'}})
+add('charitable_deduction_nonitemizers_2021', '2021 Form 1040 line 12b: cash contributions up to $300 ($600 married filing jointly) for taxpayers taking the standard deduction (CAA 2021 sec. 212)',
+    {'kind': 'echo', 'line': '1040.12b', 'reads': {'v:1040.itemizing': False, 'i:1040.charitable_contributions_std_ded': 100000.0}},
+    {'2021': by_status(300, 600, 300, 300, 300)})
+add('underpayment_penalty_floor', 'Form 1040 line 38 instructions: a penalty may be owed only if line 37 is at least $1,000 (and more than 10% of the tax shown)',
+    {'kind': 'straddle', 'line': '1040.38', 'driver': 'v:1040.37',
+     'reads': {'v:1040.24': 0.0, 'v:1040.27': 0.0, 'v:1040.27a': 0.0, 'v:1040.28': 0.0, 'v:1040.29': 0.0, 'v:1040.30': 0.0, 'i:1040.need_schedule_3_part_ii': False, 'i:1040.tax_penalty': 77.0},
+     'below': 0.0, 'at': 77.0, 'above': 77.0},
+    {y: by_status(1000, 1000, 1000, 1000, 1000) for y in ('2021', '2022', '2023')})
+add('schedule_b_interest_threshold', 'Form 1040 line 2b instructions: Schedule B is required if taxable interest is over $1,500 - probed through which line 2b takes (own total vs. Schedule B line 4)',
+    {'kind': 'straddle', 'line': '1040.2b', 'driver': 'v:1099-int:0.box_1',
+     'reads': {'i:1040.number_1099-int': 1, 'i:1040.number_1099-oid': 0, 'v:1099-int:0.box_3': 0.0, 'v:1040_sb.4': 7.0},
+     'below': 'own', 'at': 'own', 'above': 7.0},
+    {y: by_status(1500, 1500, 1500, 1500, 1500) for y in ('2021', '2022', '2023')})
 
 out = {'_comment': 'Independent table of statutory amounts with the probe that shows each through the real code. Generated by tools/build_statute.py (the committed file is the oracle; edit the builder and regenerate). printed_in_template: where the bundled template prints the amount, read at run time as a second witness.',
        'statuses': ST, 'amounts': E}
